@@ -140,11 +140,24 @@ def calls_for(rng, pd, o, budget):
     for cmb in combos:
         kws.append(("combo", list(cmb)))
     rootc = [list(c) for c in combos if all(n not in outs for n in c)]
-    for f in pd["funcs"]:
+    prod = {x: f for f in pd["funcs"] for x in f["outs"]}
+    needed, stack = [], [o]
+    while stack:                                   # functions o depends on (through unbound parameters)
+        f = prod.get(stack.pop())
+        if f is not None and f not in needed:
+            needed.append(f)
+            stack += [c for c, _ in f["params"] if c not in f["bound"]]
+    read = {c for f in needed for c, _ in f["params"] if c not in f["bound"]}
+    for f in needed:
         if len(f["outs"]) > 1 and rootc:          # supply a strict part of a tuple function's outputs
-            part = [x for x in rng.sample(f["outs"], rng.randint(1, len(f["outs"]) - 1)) if x != o]
-            if part:
-                kws.append(("partial-tuple", list(rootc[0]) + part))
+            used = [x for x in f["outs"] if x in read and x != o]
+            others = [x for x in f["outs"] if x == o or x in read]
+            if used and len(others) > 1:
+                part = rng.sample(used, rng.randint(1, len(used)))
+                if len(part) == len(others):
+                    part = part[:-1]
+                if part:
+                    kws.append(("partial-tuple", list(rootc[0]) + part))
     for _ in range(budget):
         r = rng.random()
         base = list(rng.choice(combos)) if combos and rng.random() < 0.8 else rng.sample(universe, rng.randint(0, len(universe)))
